@@ -142,10 +142,10 @@ void run_case(Chooser& c) {
   Layout layout = lk <= 1 ? L_STRADDLE : lk == 2 ? L_BLOCK0 : L_BLOCK1;
   int workers = c.range(2, 4);
   bool steal = !c.chance(1, 6);
-  bool balance = c.chance(1, 5);
+  bool balance = c.chance(1, 8);
   int nsub = c.range(0, 1);
   bool dtor_only = c.chance(1, 6);
-  int extra_wakeups = c.range(0, 3);
+  int extra_wakeups = c.range(0, 1);  // every wake-up costs a scan of up to 256 local queues
   // F: the ids the ballast gives up before the pool starts (the workers recycle them)
   std::vector<int> F;
   if (layout == L_STRADDLE) {
@@ -174,7 +174,7 @@ void run_case(Chooser& c) {
   for (int r = 0; r < nroots; r++) {
     int root = add(-1);
     W->spec[(size_t)root].submitter = (int)c.below((uint32_t)nsub + 1);
-    W->spec[(size_t)root].wakeup_after = c.chance(1, 3);
+    W->spec[(size_t)root].wakeup_after = c.chance(1, 6);
     W->spec[(size_t)root].wake_inside = c.chance(1, 2);
     int nch = c.range(r == 0 ? 1 : 0, 3);
     for (int k = 0; k < nch && spawned < 4; k++) {
